@@ -21,6 +21,8 @@ CliPrograms == {k \in Kernels : k.name \notin {"rnd", "forever"}} \cup      \* (
       \* text that runs to the physical end of the line: an open DATA quote, REM, trailing blanks
       K("eol", << "10 DATA \"FOO\", \"BAR   ", "20 READ A$,B$:PRINT A$;B$;\"|\"   ", "30 REM box [   ", "40 PRINT 1  " >>),
       K("eol2", << "10 REM x  ", "20 DATA a , b  ", "30 READ A$,B$:PRINT B$;A$;\"|\"" >>),
+      \* a source line longer than any historical line buffer (255 bytes) loads like any other
+      K("longline", << "10 PRINT \"ABCDEFGHIJKLMNOPQRSTUVWXYZ0123456789ABCDEFGHIJKLMNOPQRSTUVWXYZ0123456789ABCDEFGHIJKLMNOPQRSTUVWXYZ0123456789ABCDEFGHIJKLMNOPQRSTUVWXYZ0123456789ABCDEFGHIJKLMNOPQRSTUVWXYZ0123456789ABCDEFGHIJKLMNOPQRSTUVWXYZ0123456789ABCDEFGHIJKLMNOPQRSTUVWXYZ0123456789ABCDEFGHIJKLMNOPQRSTUVWXYZ0123456789\";", "20 PRINT \"!\":REM ABCDEFGHIJKLMNOPQRSTUVWXYZ0123456789ABCDEFGHIJKLMNOPQRSTUVWXYZ0123456789ABCDEFGHIJKLMNOPQRSTUVWXYZ0123456789ABCDEFGHIJKLMNOPQRSTUVWXYZ0123456789ABCDEFGHIJKLMNOPQRSTUVWXYZ0123456789ABCDEFGHIJKLMNOPQRSTUVWXYZ0123456789ABCDEFGHIJKLMNOPQRSTUVWXYZ0123456789ABCDEFGHIJKLMNOPQRSTUVWXYZ0123456789" >>),
       K("partial", << "10 PRINT \"abc\";:PRINT Q", "20 PRINT \"d\";", "30 INPUT A", "40 PRINT \"e\";:PRINT 1/0" >>) }
 OptSets == [w : BOOLEAN, t : BOOLEAN, s : BOOLEAN]
 \* Replies are bare numbers: what the program does not consume is read by the interactive
